@@ -43,6 +43,21 @@ CHECKS = {
         technique='TLC-derived sentences of the slash themes carry the dictated class of every `/` (DIV, DIVEQUAL, REGEX); replayed into the parser with a recording lexer under varied layout (white-space kinds, comments, line breaks where derivable); token type chosen per slash offset and the tree compared with the derivation',
         text='For every sentence of three slash themes (every predecessor construct the grammar allows: header parentheses of if/for/while/with, call and grouping parentheses, brackets, braces of blocks / objects / functions, operands, postfix and prefix operators, keywords, property names) the token type the parser-driven lexer finally chose at each slash offset and the resulting tree must equal what the derivation dictates, for rotating layout kinds around the slash.',
         note='Bounded; layout kinds are class representatives; the recording lexer subclass observes token() results only.'),
+    'C01': dict(
+        category='model_checking', design_ref='5 (C01)',
+        technique='TLC-derived programs pretty-printed with five indentation strings; real re-parse (same tree) and fixpoint; printed text aligned to the tokens the derivation dictates and validated by PrintTrace.tla with the no-fusion oracle ES5Lexical.tla (FuseTrace.tla)',
+        text='For TLC-derived programs (11 themes + simulate deep derivations, rich spellings, varied source layout) x 5 indentation strings: the real parser must read the output as the same tree and re-printing must reproduce it byte for byte; independently of this parser TLC validates the aligned output: same token sequence as the derivation dictates, no two adjacent tokens fuse under the ES5 lexical grammar (longest-match tokeniser over character classes written from ECMA-262 section 7), no line terminator in a restricted position.',
+        note='Bounded; alignment and character classification are harness code; programs the parser reads differently from the derivation are skipped (C03-C05).'),
+    'C02': dict(
+        category='model_checking', design_ref='5 (C02)',
+        technique='as C01 for minify_print with drop_semi off/on; PrintTrace.tla decides which absent semicolons are legal from the token roles the derivation dictates (terminator / empty statement as list member or as statement body / for header), ES5Lexical.tla decides fusion for every distinct adjacency',
+        text='For TLC-derived programs x {drop_semi off, on}: real re-parse gives the same tree modulo the two documented normalisations; TLC validates the aligned output: every absent token is a semicolon automatic insertion restores (followed by "}" or end of text) or a stand-alone empty statement, never a for-header semicolon or a statement body; no adjacent pair fuses (division/regex, regex flags, numeric dot, ++/--, words incl. non-ASCII identifier parts).  The evidence lists the (kind, char class | char class, kind) adjacencies without separator that were judged.',
+        note='Bounded; alignment and character classification are harness code; when a run of consecutive semicolons is partly dropped the most favourable reading is taken.'),
+    'C20': dict(
+        category='model_checking', design_ref='5 (C20)',
+        technique='pretty output aligned to the derivation tokens; PrintTrace.tla checks per line-starting token leading white space = indent_str x depth (depth from the braces / case bodies of the derivation), one final newline, Indentator level 0; also for a reused printer object after an abandoned rendering',
+        text='For TLC-derived programs with braces x 5 indentation strings (incl. empty and tab), each line of pretty_print output that starts a token must be indented by exactly indent_str x nesting depth dictated by the derivation (blocks, function bodies, object literals, switch blocks, +1 in case bodies), the text must end with exactly one newline and the recorded indentation level must be back at zero; the same is required from a printer object that is reused after a rendering was abandoned midway.',
+        note='Depth is computed by the harness from the derivation brackets; lines inside multi-line tokens are never line starts; comment lines are not judged here (C13).'),
 }
 
 NOT_YET = {}
